@@ -414,7 +414,11 @@ func (w *c09World) exec(o c09Op) (out [3]uint64, fail, sig string) {
 	case "cancel":
 		k := w.sinks[o.Sink]
 		delete(w.sinks, o.Sink)
-		c09Must(k.sink.Cancel())
+		if err := k.sink.Cancel(); err != nil {
+			// Cancel closes the underlying FullSink first; with data missing that fails and the
+			// temporary directory stays until the next restart
+			out = [3]uint64{5}
+		}
 	case "setfull":
 		c09Must(w.store.SetDueNext(Full))
 	case "reap":
@@ -584,11 +588,11 @@ func c09Random(rng *rand.Rand, maxOps int, sequential bool) c09Input {
 			}
 		case r < 60 && len(g.open) > 0:
 			g.closeOp(g.open[rng.Intn(len(g.open))])
-		case r < 66 && len(g.open) > 0:
+		case r < 70 && len(g.open) > 0:
 			k := g.open[rng.Intn(len(g.open))]
 			g.add(c09Op{Op: "cancel", Sink: k.seq})
 			g.drop(k)
-		case r < 72:
+		case r < 76:
 			g.add(c09Op{Op: "setfull"})
 		case r < 90:
 			g.add(c09Op{Op: "reap"})
@@ -632,6 +636,11 @@ func c09Corpus() []c09Input {
 	out = append(out, c09Input{Ops: append(append(full(0, 1, 9, 0), full(1, 2, 5, 1)...),
 		c09Op{Op: "create", Term: 2, Index: 3}, c09Op{Op: "inc", Sink: 2, NWal: 1}, c09Op{Op: "close", Sink: 2},
 		c09Op{Op: "create", Term: 3, Index: 1}, c09Op{Op: "inc", Sink: 3, NWal: 2}, c09Op{Op: "close", Sink: 3}, c09Op{Op: "reap"})})
+	// cancelling a sink whose full payload was cut short
+	out = append(out, c09Input{Ops: append(full(0, 1, 1, 0),
+		c09Op{Op: "create", Term: 1, Index: 2}, c09Op{Op: "full", Sink: 1, NWal: 1, Bad: true}, c09Op{Op: "cancel", Sink: 1},
+		c09Op{Op: "create", Term: 1, Index: 3}, c09Op{Op: "full", Sink: 2, NWal: 1}, c09Op{Op: "cancel", Sink: 2},
+		c09Op{Op: "create", Term: 1, Index: 4}, c09Op{Op: "inc", Sink: 3, NWal: 1}, c09Op{Op: "cancel", Sink: 3}, c09Op{Op: "reopen"})})
 	// cancelled, unfinished and bad payloads, then a reap over a chain
 	out = append(out, c09Input{Ops: append(full(0, 2, 5, 2),
 		c09Op{Op: "create", Term: 2, Index: 6}, c09Op{Op: "cancel", Sink: 1},
